@@ -1060,8 +1060,17 @@ def run(chk):
         loss_cases.append((sq, rules, rng.choice([-1, 0, 1, 1, 2, 2, 3, 3, 4])))
 
     def loss_cmp(im, m):
-        a1 = sorted(float(x) for x in im.split(',') if x)
-        a2 = sorted(float(x) for x in m.split(',') if x)
+        # the implementation keeps a *set of floats*: the same combination of losses summed in two different orders can
+        # differ in the last bit (-56.02112 vs -56.021119999999996) and then appears twice; the exact model has it once.
+        # Float summation order is outside the property (losses are compared at 1e-9), so values closer than 1e-9 are one.
+        def collapse(vals):
+            out = []
+            for v in sorted(vals):
+                if not out or abs(v - out[-1]) >= 1e-9:
+                    out.append(v)
+            return out
+        a1 = collapse(float(x) for x in im.split(',') if x)
+        a2 = collapse(float(x) for x in m.split(',') if x)
         return len(a1) == len(a2) and all(abs(x - y) < 1e-9 for x, y in zip(a1, a2))
     chk.correspond('get_losses', DRV, loss_cases,
                    lambda c: f'losses\t{annot.esc(c[0])}\t{";".join(rule_wire(r, c[0]) for r in c[1])}\t{c[2]}',
